@@ -49,6 +49,8 @@ def main(argv=None):
             rc = mod.replay(a.replay)
             core.cleanup()
             return rc
+        for tm in getattr(mod, "TRACE_MODULES", []):
+            core.preflight(tm)
         res = mod.run(a.tier, a.seed)
     except core.MachineryError as ex:
         print(f"MACHINERY-FAILURE property={prop}: {ex}", file=sys.stderr)
